@@ -174,9 +174,53 @@ def clock_independence(ctx):
                     return
 
 
+def edit_between_solves(ctx, rng, count):
+    """solve, EDIT the description in place (an action removed from a player state, or a row replaced; the
+    list objects stay the same), solve again: the second result is that of the edited game solved from
+    scratch in a fresh copy -- nothing may be remembered from the first solve"""
+    done = 0
+    while done < count:
+        g = gen.stopping_game(rng, n_inner=rng.randint(3, 7))
+        shared = gen.desc(g)
+        cand = [s for s, (pl, row) in enumerate(zip(shared["players"], shared["transition_list"])) if pl != PR and len(row) >= 2]
+        if not cand:
+            continue
+        done += 1
+        for prune in (True, False):
+            first = impl.solve_inplace(shared, prune, want_nodes=False)
+            s = rng.choice(cand)
+            before = copy.deepcopy(shared)
+            if rng.random() < 0.5 and len(shared["transition_list"][s]) >= 2:
+                shared["transition_list"][s].pop(rng.randrange(len(shared["transition_list"][s])))
+            else:
+                row = shared["transition_list"][s]
+                shared["transition_list"][s] = [row[rng.randrange(len(row))]]
+            fresh = impl.solve(copy.deepcopy(shared), prune, want_nodes=False)
+            again = impl.solve_inplace(shared, prune, want_nodes=False)
+            ctx.case({"game": before, "edited_state": s, "after": copy.deepcopy(shared), "prune": prune, "family": "edit_between_solves"},
+                     canon_res(first) != canon_res(fresh))
+            if "Timeout" in (first["outcome"], fresh["outcome"], again["outcome"]):
+                ctx.count("timeout")
+                break
+            if canon_res(again) != canon_res(fresh):
+                ctx.violation("not-repeatable", {"game": before, "edited_state": s, "edited_description": copy.deepcopy(shared), "prune": prune,
+                                                 "sequence": "solve, edit in place, solve"},
+                              {"second_solve": list(canon_res(again))[:6], "edited_game_solved_from_scratch": list(canon_res(fresh))[:6]})
+                return
+            # ... and back: the edit is undone in place (transitions are ADDED), third solve = the original game
+            shared["transition_list"][s][:] = before["transition_list"][s]
+            back = impl.solve_inplace(shared, prune, want_nodes=False)
+            if back["outcome"] != "Timeout" and canon_res(back) != canon_res(first):
+                ctx.violation("not-repeatable", {"game": before, "edited_state": s, "prune": prune,
+                                                 "sequence": "solve, remove transitions in place, solve, put them back in place, solve"},
+                              {"third_solve": list(canon_res(back))[:6], "first_solve": list(canon_res(first))[:6]})
+                return
+
+
 def run(ctx, model=None):
     ctx.extra["rule"] = RULE
     clock_independence(ctx)
+    edit_between_solves(ctx, random.Random(ctx.seed + 77), 40 if ctx.quick() else 1500)
     rng = random.Random(ctx.seed * 15485863 + 10)
     seqs = op_sequences(rng, ctx.quick())
     games = []
